@@ -324,6 +324,8 @@ def sort_keys(repo):
     rows = []
 
     def lam_attr(kw):
+        if kw.arg == "key" and isinstance(kw.value, ast.Name):
+            return kw.value.id            # key=str: the order of the type table, not of a name table
         if (kw.arg == "key" and isinstance(kw.value, ast.Lambda) and len(kw.value.args.args) == 1
                 and isinstance(kw.value.body, ast.Attribute) and isinstance(kw.value.body.value, ast.Name)
                 and kw.value.body.value.id == kw.value.args.args[0].arg):
@@ -342,8 +344,8 @@ def sort_keys(repo):
                         if len(n.keywords) != 1 or n.args:
                             _fail(".sort(...) call with unexpected arguments in %s" % fn.name)
                         rows.append((fn.name, ast.unparse(n.func.value), lam_attr(n.keywords[0])))
-    if [r[0] for r in rows] != ["collect_type_table", "collect_type_table", "collect_step_tables"]:
-        _fail("expected two sorted() in collect_type_table and one .sort() in collect_step_tables, found %r" % rows)
+    if [r[0] for r in rows] != ["collect_type_table"] * 3 + ["collect_step_tables"]:
+        _fail("expected three sorted() in collect_type_table and one .sort() in collect_step_tables, found %r" % rows)
     # the .sort is applied to every step except "field"
     src = open(os.path.join(repo, "src", "cffi", "recompiler.py")).read()
     if not re.search(r"for step_name in self\.ALL_STEPS:\s*lst = self\._lsts\[step_name\]\s*"
@@ -386,19 +388,19 @@ Fixpoint gen_search (fuel : nat) (t : list cstr) (key : cstr) (left right : nat)
     if gen_loop_cond left right then
       let middle := gen_middle left right in
       let src := nth middle t [] in
-      match gen_body (strncmp src key (length key)) (N.eqb (char_at src (length key)) 0) left right middle with
+      match gen_body (strncmp src key (List.length key)) (N.eqb (char_at src (List.length key)) 0) left right middle with
       | GReturn r => Some r
       | GNext l r => gen_search f t key l r
       end
     else None
   end.
 Definition gen_search_sorted (t : list cstr) (key : cstr) : option nat :=
-  gen_search (S (length t)) t key (gen_left0 (length t)) (gen_right0 (length t)).
+  gen_search (S (List.length t)) t key (gen_left0 (List.length t)) (gen_right0 (List.length t)).
 
 (* MAKE_SEARCH_FUNC(FIELD):  if (ctx->num_FIELD == 0) return -1;
-                             return search_sorted(&ctx->FIELD->name, sizeof(*ctx->FIELD), ctx->num_FIELD, search, search_len); *)
+                             return search_sorted(&ctx->FIELD->name, sizeof( *ctx->FIELD ), ctx->num_FIELD, search, search_len); *)
 Definition gen_search_in (t : list cstr) (key : cstr) : option nat :=
-  if Nat.eqb (length t) 0 then None else gen_search_sorted t key.
+  if Nat.eqb (List.length t) 0 then None else gen_search_sorted t key.
 """
 
 
